@@ -163,8 +163,13 @@ def sig_of(kind, detail, op):
     return {"kind": "diff", "op": w[0]}
 
 
+TYPE_CONFUSION = ("downcast", "does_not_point_to_an_object", "vptr")
+
+
 def problem_of(op, impl, mod, spec):
     if impl.startswith("FAULT") or " EXITFAULT " in impl:
+        if op.startswith("ser ") and not any(t in impl for t in TYPE_CONFUSION):
+            return None        # a crash that is not a wrong-type access belongs to another property (see unrelated_faults)
         return "fault", impl
     if spec is not None and spec.startswith("violates"):
         return "spec", spec
@@ -292,8 +297,17 @@ def run(chk):
     chk.cov["distinct_nontrivial"] = len(seen)
     chk.cov["traces_validated_against_impl"] = len(ops) + len(sops)
     # 6. a theorem / audit problem without a concrete failing input found by the exhaustive run above
+    unrelated = sorted({f"{o} -> {a[:160]}" for o, a in zip(sops, simpl)
+                        if a.startswith("FAULT") and not any(t in a for t in TYPE_CONFUSION)})
+    if unrelated:
+        chk.extra["unrelated_faults"] = unrelated[:20]
+        core.log(f"{len(unrelated)} serialization fault(s) that are not wrong-type accesses (other properties): {unrelated[:3]}")
+    # observation only (the property is an 'only if'): objects that are a T but are not found as a T
+    chk.extra["incomplete_lookups"] = sorted(
+        f"{o.split(' ')[1]} as {o.split(' ')[2]}" for o, a in zip(ops, impl)
+        if o.startswith("pair ") and "PDUCacher<" not in o and " dyn=1" in a and "find=0" in a)[:40]
     for p in problems:
-        if not (stats.get("spec", 0) + stats.get("fault", 0)) or not chk.violations:
+        if not any(not nofail for (_, _, nofail) in chk.violations):
             chk.violation("proof obligation no longer checks: " + p[:1500], ["theorem-or-audit-failure", p[:4000]], nofail=True)
     chk.cov["rule"] = ("evaluations = operation lines executed on real objects (row: one object per class; pair: every "
                        "concrete K x every askable T, exhaustive; chain: random and small-scope exhaustive chains; ser: "
